@@ -1,0 +1,22 @@
+//! verification hook: snapshot of a `SpectatorSession` (child module, read-only)
+use super::SpectatorSession;
+use crate::verif::{status_pairs, SpectatorSnap};
+use crate::{Config, SessionState};
+
+impl<T: Config> SpectatorSession<T> {
+    /// Read-only projection of the session's internal state.
+    pub fn verif_snapshot(&self) -> SpectatorSnap {
+        SpectatorSnap {
+            running: self.state == SessionState::Running,
+            num_players: self.num_players,
+            current_frame: self.current_frame,
+            last_recv_frame: self.last_recv_frame,
+            max_frames_behind: self.max_frames_behind,
+            catchup_speed: self.catchup_speed,
+            evq: self.event_queue.len(),
+            host_status: status_pairs(&self.host_connect_status),
+            ring: self.inputs.iter().map(|v| v[0].frame).collect(),
+            host: self.host.verif_snap(),
+        }
+    }
+}
